@@ -814,9 +814,13 @@ theorem SGWF.addEdge {g : SG} (h : SGWF g) (a b : Nat) (w : Int) : SGWF (g.addEd
           by_cases hab : a ≤ b <;> simp [hab] <;> omega
   · exact h
 
-theorem SGWF.step {g : SG} (h : SGWF g) (op : CsrM.Op) : SGWF (specStep g op).1 := by
+theorem SGWF.step {g : SG} (h : SGWF g) (m : Nat) (op : CsrM.Op) : SGWF (specStep m g op).1 := by
   cases op with
-  | addNode w => exact h
+  | addNode w =>
+    -- `add_node` adds no edge; on a full graph (capacity `m` of the index type) it changes nothing at all
+    by_cases hf : m = 0 ∨ g.n < m
+    · simp only [specStep, SG.addNodeCap_fit m g w hf]; exact h
+    · simp only [specStep, SG.addNodeCap_full m g w hf]; exact h
   | clearEdges => exact ⟨by simp [specStep, AppendSpec.SG.clearEdges], by intro _ k hk; simp [specStep, AppendSpec.SG.clearEdges] at hk⟩
   | setWeight a w =>
     show SGWF (match g.setWeight a w with | some g' => (g', Out.unit) | none => (g, Out.panic)).1
@@ -833,10 +837,10 @@ theorem SGWF.step {g : SG} (h : SGWF g) (op : CsrM.Op) : SGWF (specStep g op).1 
     cases r <;> exact this
   | tryAddEdge a b w => exact h.addEdge a b w
 
-theorem SGWF.run {g : SG} (h : SGWF g) (ops : List CsrM.Op) : SGWF (specRun g ops).1 := by
+theorem SGWF.run {g : SG} (h : SGWF g) (m : Nat) (ops : List CsrM.Op) : SGWF (specRun m g ops).1 := by
   induction ops generalizing g with
   | nil => exact h
-  | cons op ops ih => exact ih (h.step op)
+  | cons op ops ih => exact ih (h.step m op)
 
 /-- under the abstraction the `edge_count` field is the number of references `repairD7` keeps -/
 theorem edgeCountOk_of_abs {g : SG} (good : Good s R) (hf : IxFits s) (abs : Abs s R g) (wf : SGWF g)
@@ -889,17 +893,17 @@ end count
 section histories
 open PetgraphModel.AppendSpec
 
-/-- every history keeps the invariant, the abstraction, the type parameters and `IxFits` -/
+/-- every history keeps the invariant, the abstraction, the type parameters and `IxFits` (since /repo commit
+8cab180 `add_node` panics rather than exceed the capacity of the index type, so no hypothesis on the history is
+needed any more; `specRun` takes that capacity as a parameter) -/
 theorem csr_run_facts {s0 : State} {R0 : List Row} {g0 : SG} (good : Good s0 R0) (abs : Abs s0 R0 g0)
-    (ops : List CsrM.Op) (hfit : Fits s0.modulus R0.length ops) (h0 : IxFits s0) :
-    ∃ R, Good (run s0 ops).1 R ∧ Abs (run s0 ops).1 R (specRun g0 ops).1 ∧
+    (ops : List CsrM.Op) (h0 : IxFits s0) :
+    ∃ R, Good (run s0 ops).1 R ∧ Abs (run s0 ops).1 R (specRun s0.modulus g0 ops).1 ∧
       SameParams (run s0 ops).1 s0 ∧ IxFits (run s0 ops).1 := by
   induction ops generalizing s0 R0 g0 with
   | nil => exact ⟨R0, good, abs, SameParams.refl s0, h0⟩
   | cons op ops ih =>
-    obtain ⟨R1, good1, abs1, _, sp1, hl1⟩ := step_refines good abs op hfit.1
-    have hfit' : Fits (step s0 op).1.modulus R1.length ops := by
-      rw [sp1.2.1, hl1]; exact hfit.2
+    obtain ⟨R1, good1, abs1, _, sp1, hl1⟩ := step_refines good abs op
     have h0' : IxFits (step s0 op).1 := by
       unfold IxFits
       rw [sp1.2.1, good1.rep.nodeCount, hl1]
@@ -907,11 +911,11 @@ theorem csr_run_facts {s0 : State} {R0 : List Row} {g0 : SG} (good : Good s0 R0)
       unfold IxFits at h0
       cases op with
       | addNode w =>
-        have := hfit.1 w rfl
-        simp only [nodesAfter]
-        omega
-      | _ => simp only [nodesAfter]; omega
-    obtain ⟨R2, good2, abs2, sp2, hf2⟩ := ih good1 abs1 hfit' h0'
+        simp only [nodesAfterC]
+        split <;> omega
+      | _ => simp only [nodesAfterC]; omega
+    obtain ⟨R2, good2, abs2, sp2, hf2⟩ := ih good1 abs1 h0'
+    rw [sp1.2.1] at abs2
     refine ⟨R2, by simpa [run] using good2, by simpa [run, specRun] using abs2, ?_, by simpa [run] using hf2⟩
     simp only [run]
     exact ⟨sp2.1.trans sp1.1, sp2.2.1.trans sp1.2.1, sp2.2.2.1.trans sp1.2.2.1, sp2.2.2.2.trans sp1.2.2.2⟩
@@ -995,10 +999,10 @@ theorem csrTable_consistent_all_histories (m c : Nat) (dbg : Bool) (n : Nat) (op
     let s := (run (withNodes true m c dbg n) ops).1
     TableConsistent (nodeIdentifiers s) (csrTable s) ∧ CsrView.callsOk s := by
   intro s
-  obtain ⟨R, good, _, _⟩ := C05T.C05_csr_all_histories true m c dbg n ops hfits
+  obtain ⟨R, good, _, _⟩ := C05T.C05_csr_all_histories true m c dbg n ops
   have hinit := C05T.C05_csr_inv_init true m c dbg n
   obtain ⟨_, _, _, sp, hf⟩ := csr_run_facts (good_withNodes true m c dbg n) hinit.2.2 ops
-    (by simpa [withNodes] using hfits) (by simpa [IxFits, withNodes, State.nodeCount] using h0)
+    (by simpa [IxFits, withNodes, State.nodeCount] using h0)
   have hd : s.directed = true := sp.1
   exact ⟨csrTable_consistent s ⟨R, good⟩ hf hd, csrTable_callsOk s ⟨R, good⟩ hf⟩
 
@@ -1010,8 +1014,7 @@ theorem csrTable_consistent_from_sorted (m c : Nat) (dbg : Bool) (es : List Edge
   intro s
   obtain ⟨_, _, R0, good0, abs0⟩ := C05T.C05_from_sorted_equals_fold m c dbg es s0 h
   have hm : s0.modulus = m := (fromSorted_directed h).2
-  obtain ⟨R, good, _, sp, hf⟩ := csr_run_facts good0 abs0 ops
-    (by rw [hm, ← good0.rep.nodeCount]; exact hfits) h0
+  obtain ⟨R, good, _, sp, hf⟩ := csr_run_facts good0 abs0 ops h0
   have hd : s.directed = true := sp.1.trans (fromSorted_directed h).1
   exact ⟨csrTable_consistent s ⟨R, good⟩ hf hd, csrTable_callsOk s ⟨R, good⟩ hf⟩
 
@@ -1024,10 +1027,11 @@ theorem csrTable_consistent_all_histories_undirected (m c : Nat) (dbg : Bool) (n
   intro s
   have hinit := C05T.C05_csr_inv_init false m c dbg n
   obtain ⟨R, good, abs, sp, hf⟩ := csr_run_facts (good_withNodes false m c dbg n) hinit.2.2 ops
-    (by simpa [withNodes] using hfits) (by simpa [IxFits, withNodes, State.nodeCount] using h0)
+    (by simpa [IxFits, withNodes, State.nodeCount] using h0)
   have hd : s.directed = false := sp.1
-  have wf : SGWF (specRun { directed := false, nodes := List.replicate n 0, edges := [] } ops).1 :=
-    SGWF.run ⟨by simp, by intro _ k hk; simp at hk⟩ ops
+  have wf : SGWF (specRun (withNodes false m c dbg n).modulus
+      { directed := false, nodes := List.replicate n 0, edges := [] } ops).1 :=
+    SGWF.run ⟨by simp, by intro _ k hk; simp at hk⟩ _ ops
   exact ⟨csrTable_consistent_undirected s ⟨R, good⟩ hf hd h100 (edgeCountOk_of_abs good hf abs wf hd),
     csrTable_callsOk s ⟨R, good⟩ hf⟩
 
